@@ -302,3 +302,73 @@ end Gosyn.Props.C08
 #print axioms Gosyn.Props.C08.lineEnded_iff_spec_blanks
 #print axioms Gosyn.Props.C08.trigger_table_partial
 #print axioms Gosyn.Props.C08.trigger_package_cex
+
+/-! ### 5. the pending-semicolon flag (whole scanner step) -/
+namespace Gosyn.Props.C08
+open Gosyn.Gen Gosyn.Model Gosyn.Spec
+
+/-- with the flag set and the line ended (in the spec's sense), the next token is the automatic
+    semicolon, placed at the current position; nothing is consumed and the flag is cleared -/
+theorem synthetic_semicolon (s : Scanner) (h1 : s.semi = true) (h2 : Spec.LineEnd Spec.ImplBlank s.rest) :
+    s.nextToken = (.ok (some (s.pos, .operator .SemiColon)), { s with semi := false }) := by
+  have hl : s.lineEnded = true := (lineEnded_iff_spec _).2 h2
+  unfold Scanner.nextToken
+  simp [h1, hl]
+
+/-- without the flag, or when the line has not ended, no semicolon is invented: whatever token comes
+    next is scanned from the text (its text is found in the source, `Props.C05.nextToken_at_pos`) -/
+theorem no_synthetic_semicolon (s : Scanner) (h : s.semi = false ∨ ¬ Spec.LineEnd Spec.ImplBlank s.rest) :
+    s.nextToken = (let s1 := ({ s with semi := false } : Scanner).skipWhitespace
+      if s1.pos ≥ s1.src.size then (.ok none, s1)
+      else match scanToken s1.rest with
+        | .error f =>
+          let s2 := { s1 with lines := s1.lines ++ (newlineStarts s1.pos f.scanned).toArray }
+          (.error (if f.panic then .panic f.reason else s2.errorAt (s2.pos + f.off) f.reason), s2)
+        | .ok (tok, n) =>
+          (.ok (some (s1.pos, tok)),
+            { (s1.addTokenCrossLine tok) with pos := (s1.addTokenCrossLine tok).pos + n, semi := tryInsertSemicolon tok })) := by
+  have hc : (s.semi && s.lineEnded) = false := by
+    rcases h with h | h
+    · simp [h]
+    · have : s.lineEnded = false := by
+        cases hl : s.lineEnded with
+        | false => rfl
+        | true => exact absurd ((lineEnded_iff_spec _).1 hl) h
+      simp [this]
+  unfold Scanner.nextToken
+  simp only [hc, Bool.false_eq_true, if_false]
+  split <;> rfl
+
+/-- **the flag is set exactly after a trigger token**: after any token scanned from the text the
+    pending-semicolon flag equals the code's trigger table on that token (`trigger_table_partial`: the
+    spec's list, except `package`) -/
+theorem flag_after_token (s s' : Scanner) (p : Nat) (tok : Token)
+    (h : s.nextToken = (.ok (some (p, tok)), s'))
+    (hreal : ¬ (s.semi = true ∧ s.lineEnded = true)) : s'.semi = tryInsertSemicolon tok := by
+  unfold Scanner.nextToken at h
+  split at h
+  · rename_i hc
+    simp only [Bool.and_eq_true] at hc
+    exact absurd hc hreal
+  · simp only at h
+    split at h
+    · simp at h
+    · split at h
+      · simp at h
+      · simp only [Prod.mk.injEq, Except.ok.injEq, Option.some.injEq] at h
+        obtain ⟨⟨_, rfl⟩, rfl⟩ := h
+        rfl
+
+/-- after the automatic semicolon the flag is clear: no second semicolon for the same line end -/
+theorem flag_after_synthetic (s : Scanner) (h1 : s.semi = true) (h2 : s.lineEnded = true) :
+    s.nextToken.2.semi = false := by
+  unfold Scanner.nextToken
+  simp [h1, h2]
+
+/-- backtracking restores the flag that was saved with the position -/
+theorem goback_restores_flag (s : Scanner) (pre : Nat × Bool) :
+    (s.goback pre).semi = pre.2 ∧ (s.goback pre).pos = pre.1 := ⟨rfl, rfl⟩
+
+theorem preback_saves_flag (s : Scanner) : s.preback = (s.pos, s.semi) := rfl
+
+end Gosyn.Props.C08
